@@ -426,9 +426,13 @@ def c02i(ctx):
     # (b) or un-registering is counted: abort_callee's removal depends on a counter it decrements
     ab = ctx.touch(prog.body("QueryComputing::abort_callee"))
     rm = ab.calls_to(r"HashMap::<K, V, H>::remove_sync$|HashMap::<K, V, H>::remove_if_sync$|OccupiedEntry::<.*>::remove(_entry)?$")
-    counted = bool(ab.calls_to(r"atomic::Atomic.*::fetch_sub$")) or any(
-        st["rv"].get("k") == "bin" and st["rv"]["op"] in ("Sub", "SubWithOverflow") for blk in ab.blocks for st in blk["stmts"] if st["k"] == "assign")
-    if not guarded and not (counted and rm):
+    decs = [x.bb for x in ab.calls_to(r"atomic::Atomic.*::fetch_sub$|::(saturating|checked|wrapping|overflowing)_sub$")] + [
+        bi for bi, blk in enumerate(ab.blocks) for st in blk["stmts"] if st["k"] == "assign" and st["rv"].get("k") == "bin" and st["rv"]["op"] in ("Sub", "SubWithOverflow")]
+    # counted un-registering: a counter is decremented and, AFTER the decrement, some path returns without removing (other
+    # requests remain) while another removes
+    counted = bool(decs) and bool(rm) and any(ab.must_pass([d_], [r_.bb for r_ in rm]) and any(r_.bb in ab.reachable([d_]) for r_ in rm) for d_ in decs)
+    o.sites += len(rm)
+    if not guarded and not counted:
         ctx.fail(o, new, "Engine::register_callee hands out an UndoRegisterCallee for every call, also when the callee was already registered by another request of the same "
                  "executor (QueryComputing::register_calee does not say which): dropping one of two concurrent requests for one key un-registers the dependency the other "
                  "has recorded, dropping both panics in abort_callee's assertion")
